@@ -5,7 +5,8 @@ one shared FanoutCache), database timeout 0, driven by harness/sched.Scheduler a
 schedules (systematically enumerated and random), then round-robin.
 MONITOR (independent of the Coq model): a witness counter maintained by the contenders themselves
 inside their critical sections (max simultaneous holders), a second counter inside barrier-wrapped
-functions, refusal of RLock.release by a non-holder / BoundedSemaphore.release at full value,
+functions, refusal of RLock.release by a non-holder / BoundedSemaphore.release at full value (and: a refused
+release leaves the stored entry unchanged and admits no extra holder afterwards, `refusal_sequences`),
 "an attempt made while the resource is certainly free succeeds", and termination of every contender.
 CORRESPONDENCE: the atomic-step schedule is read off the scheduler log (the COMMIT/ROLLBACK that ends
 each transaction on the key's shard, lock-free SELECTs, work sleeps) and the same programs + schedule
@@ -35,7 +36,7 @@ TRUSTED = [
 ASSUMPTIONS = [
     'the lock key is touched by nobody else, has no ttl (expire=None) and is not evicted (eviction_policy none)',
     'each cache operation and each transact block is atomic and isolated (properties C05/C06)',
-    'Lock and BoundedSemaphore: contenders release only what they hold (Lock.release deletes the key whoever holds it; the property text requires refusal only for RLock) -- RLock theorems need no such discipline',
+    'Lock and BoundedSemaphore: contenders release only what they hold (Lock.release deletes the key whoever holds it; the property text requires refusal only for RLock) -- RLock theorems need no such discipline.  A release by a contender holding nothing is still generated: with every permit free it must be refused (BoundedSemaphore) or be a no-op (Lock) and must leave the stored entry as it was, and the exclusion bound is then checked on what follows; only runs in which such a release was ACCEPTED (another contender held a permit) are left to the correspondence',
     'owner identity pid-tid is distinct for distinct contenders',
     'no liveness under contention is claimed (needs a fair scheduler): only "a free resource is taken by the next attempt" and "a release frees it"',
     'processes: exercised free-running in the thorough tier only (monitor only); the deterministic scheduler drives threads',
@@ -327,6 +328,19 @@ def monitor(case, out):
         return bad
     if not case.get('disciplined', True):
         return bad          # misuse programs: correspondence only
+    # a release by a contender that holds nothing: RLock must refuse it.  Lock and BoundedSemaphore cannot tell whose permit it
+    # is, so an ACCEPTED one hands out what another contender holds (misuse, outside the property: correspondence only);
+    # a REFUSED one must change nothing, so the bound below still applies to the run
+    if kind != 'rlock':
+        for i in range(n):
+            depth = 0
+            for op, e0, e1, res in out['records'][i]:
+                if op == 'A':
+                    depth += 1
+                elif op == 'R' and res == 'ok':
+                    if depth == 0:
+                        return bad
+                    depth -= 1
     if kind == 'sem':
         if wit.max_permits > bound:
             bad.append(('exclusion', 'witness counted %d simultaneous holders of a BoundedSemaphore with value %d' % (wit.max_permits, bound)))
@@ -346,6 +360,8 @@ def monitor(case, out):
                         bad.append(('release-not-refused', 'RLock.release by contender %d holding nothing was accepted' % i))
                     if depth > 0 and res == 'refused':
                         bad.append(('release-refused', 'RLock.release by the holder (depth %d) was refused' % depth))
+                elif depth > 0 and res == 'refused':
+                    bad.append(('release-refused', '%s.release by contender %d, who holds it (%d), was refused' % (kind, i, depth)))
                 if res == 'ok':
                     depth = max(0, depth - 1)
     if kind == 'sem' and case.get('expect_all_refused'):
@@ -465,6 +481,10 @@ def gen_prog(rng, kind, value, cid, misuse=False):
             p.append('P')
     if kind == 'rlock' and rng.random() < 0.3:
         # releasing what is not held: must be refused
+        p.insert(rng.choice([0, len(p)]), 'R')
+    if kind == 'sem' and rng.random() < 0.3:
+        # releasing with nothing held: refused when every permit is free (then it must change nothing); accepted when
+        # another contender holds one (the monitor then leaves the run to the correspondence)
         p.insert(rng.choice([0, len(p)]), 'R')
     if misuse:
         p.insert(0, 'R')
@@ -661,6 +681,166 @@ def forked_holders(ctx, res):
     res.extra['forked_holder_checks'] = checked
 
 
+# ---------------------------------------------------------------------------
+# error paths: releases that must be refused, interleaved with ordinary acquire/release (sequential, exact reference)
+
+
+class WouldBlock(Exception):
+    """raised from the recipe's sleep between two acquire attempts: the attempt found the resource taken"""
+
+
+class RefState:
+    """What the property text says about one resource and m holders, nothing else.
+    Lock: one holder or none.  RLock: owner and depth.  BoundedSemaphore(value): permits held per holder."""
+
+    def __init__(self, kind, value, m):
+        self.kind, self.bound, self.h = kind, (value if kind == 'sem' else 1), [0] * m
+
+    def total(self):
+        return sum(self.h)
+
+    def can_acquire(self, j):
+        if self.kind == 'rlock':
+            return all(x == 0 for i, x in enumerate(self.h) if i != j)
+        return self.total() < self.bound
+
+    def release_kind(self, j):
+        """'accept' (j holds), 'refuse' (must be refused / must change nothing), None (outside the property: a
+        non-holder releasing what another contender holds, which Lock and BoundedSemaphore cannot tell apart)."""
+        if self.h[j] > 0:
+            return 'accept'
+        if self.kind == 'rlock' or self.total() == 0:
+            return 'refuse'
+        return None
+
+
+def gen_refusal_case(rng, n):
+    kind = ['sem', 'rlock', 'lock'][n % 3]
+    value = [1, 2, 3][(n // 3) % 3] if kind == 'sem' else 1
+    variant = ['cache', 'fanout'][(n // 9) % 2]
+    m = rng.choice([2, 3]) if kind != 'sem' else value + 1
+    ref = RefState(kind, value, m)
+    ops = []
+    for _ in range(rng.randrange(3, 12)):
+        j = rng.randrange(m)
+        r = rng.random()
+        refusable = [i for i in range(m) if ref.release_kind(i) == 'refuse']
+        holders = [i for i in range(m) if ref.h[i] > 0]
+        if r < 0.35 and refusable:
+            ops.append([rng.choice(refusable), 'R'])
+        elif r < 0.6 and holders:
+            j = rng.choice(holders)
+            ops.append([j, 'R'])
+            ref.h[j] -= 1
+        else:
+            ops.append([j, 'A'])
+            if ref.can_acquire(j):
+                ref.h[j] += 1
+    # count simultaneous holders: everybody tries to get in, nobody leaves
+    for j in range(m):
+        ops.append([j, 'A'])
+    return {'check': 'refusals', 'kind': kind, 'value': value, 'variant': variant, 'shards': rng.choice([1, 2, 3]) if variant == 'fanout' else 1,
+            'holders': m, 'ops': ops}
+
+
+def run_refusal_case(case, d):
+    """-> (problems [(sig, text, op index)], info).  Holders are threads (one each, so that RLock sees distinct owners) that
+    run ONE operation at a time; an acquire that would wait is cut at its first sleep.  Decided from the outcome of each
+    call and from the stored entry read before and after every refused release."""
+    from concurrent.futures import ThreadPoolExecutor
+    kind, value, m = case['kind'], case.get('value', 1), case['holders']
+    clock = instr.Clock(1000.0)
+
+    def on_sleep(dur):
+        raise WouldBlock()
+    clock.on_sleep = on_sleep
+    problems, info = [], {'refused': 0, 'blocked': 0, 'acquired': 0}
+    ref = RefState(kind, value, m)
+    missing = object()
+    with instr.Installed(clock):
+        if case['variant'] == 'fanout':
+            cache = diskcache.FanoutCache(d, shards=case.get('shards', 1), eviction_policy='none')
+        else:
+            cache = diskcache.Cache(d, eviction_policy='none')
+        pools = [ThreadPoolExecutor(max_workers=1) for _ in range(m)]
+        try:
+            locks = [pools[j].submit(make_recipe, kind, cache, value).result() for j in range(m)]
+
+            def stored():
+                v = cache.get(KEY, default=missing)
+                return 'absent' if v is missing else repr(v)
+            for i, (j, op) in enumerate(case['ops']):
+                if op == 'A':
+                    expect = ref.can_acquire(j)
+                    try:
+                        pools[j].submit(locks[j].acquire).result()
+                        got = True
+                    except WouldBlock:
+                        got = False
+                    if got and not expect:
+                        holders = ref.total() + 1 if kind == 'sem' else 2
+                        problems.append(('refusal-sequence:exclusion', 'acquire by holder %d succeeded: %d simultaneous holders of a %s with bound %d' % (
+                            j, holders, kind, ref.bound), i))
+                        break
+                    if expect and not got:
+                        problems.append(('refusal-sequence:free-acquire-blocked', 'acquire by holder %d found the %s taken although %d of %d are held' % (
+                            j, kind, ref.total(), ref.bound), i))
+                        break
+                    if got:
+                        ref.h[j] += 1
+                        info['acquired'] += 1
+                    else:
+                        info['blocked'] += 1
+                else:
+                    rk = ref.release_kind(j)
+                    if rk is None:
+                        continue
+                    before = stored()
+                    try:
+                        pools[j].submit(locks[j].release).result()
+                        refused = False
+                    except AssertionError:
+                        refused = True
+                    after = stored()
+                    if rk == 'accept':
+                        if refused:
+                            problems.append(('refusal-sequence:release-refused', 'release by holder %d of the %s it holds was refused' % (j, kind), i))
+                            break
+                        ref.h[j] -= 1
+                    else:
+                        info['refused'] += 1
+                        if not refused and kind != 'lock':
+                            problems.append(('refusal-sequence:release-not-refused', 'release of a %s by holder %d, who holds nothing, was accepted' % (kind, j), i))
+                            break
+                        if after != before and not any(p_[0] == 'refusal-sequence:state-changed' for p_ in problems):
+                            # (recorded once; the run goes on so that the holders admitted afterwards are counted too)
+                            problems.append(('refusal-sequence:state-changed', 'a refused release of a %s (holder %d holds nothing) changed the stored entry from %s to %s' % (
+                                kind, j, before, after), i))
+        finally:
+            for p_ in pools:
+                p_.shutdown(wait=True)
+            cache.close()
+    return problems, info
+
+
+def refusal_sequences(ctx, res, ncases):
+    tot = {'refused': 0, 'blocked': 0, 'acquired': 0}
+    for n in range(ncases):
+        case = gen_refusal_case(ctx.rng, n)
+        d = ctx.scratch('c15s')
+        try:
+            problems, info = run_refusal_case(case, d)
+        finally:
+            shutil.rmtree(d, ignore_errors=True)
+        for k in tot:
+            tot[k] += info[k]
+        res.count(case, nontrivial=info['refused'] > 0)
+        for sig, text, i in problems:
+            res.violations.append(fw.Violation(sig, text + ' (operation %d of %r on %s)' % (i, case['ops'][:i + 1], case['variant']), dict(case, failing_op=i)))
+    res.extra['refusal_sequences'] = ncases
+    res.extra['refusal_sequence_totals'] = tot
+
+
 def base_hist():
     return {'contenders': {}, 'variant': {}, 'kind': {}, 'atomic_steps': {}, 'contention': 0, 'max_holders': 0}
 
@@ -685,8 +865,13 @@ def run(ctx):
     res.rule = ('contender programs over acquire/release/work/locked()/barrier-call for Lock, RLock (nesting 1-3, unheld releases) and '
                 'BoundedSemaphore (values 1-3), 2-4 threads with own Cache objects / one shared Cache / FanoutCache (1 or 3 shards), '
                 'timeout 0, under the deterministic scheduler: ALL event-level schedules of a fixed length over two contenders '
-                '(enumerated) plus random bursty schedules of length 0-120 followed by round-robin.  non-trivial = at least 4 atomic '
-                'steps; distinct = distinct (recipe, value, variant, programs, schedule).')
+                '(enumerated) plus random bursty schedules of length 0-120 followed by round-robin.  Error paths: BoundedSemaphore programs '
+                'with releases by contenders holding nothing (refused ones must change nothing, so the bound still applies), and sequential '
+                'refusal sequences on Cache and FanoutCache (1-3 shards): 2-4 holder threads running one acquire/release at a time against '
+                'an exact reference (Lock free/held, RLock owner+depth, semaphore permits), with releases that must be refused (RLock by a '
+                'non-owner or beyond its depth, BoundedSemaphore with every permit free) or be a no-op (Lock nobody holds) interleaved with '
+                'ordinary acquire/release, the stored entry read before and after each of them, and every holder trying to get in at the end.  '
+                'non-trivial = at least 4 atomic steps / at least one refused release; distinct = distinct (recipe, value, variant, programs, schedule).')
     hist = base_hist()
     rng = ctx.rng
     L = 8 if ctx.quick else 11
@@ -705,6 +890,7 @@ def run(ctx):
     res.extra['histogram_atomic_steps_bucketed_by_5'] = {str(k): v for k, v in sorted(hist['atomic_steps'].items())}
     res.extra['runs_with_contention'] = hist['contention']
     res.extra['max_simultaneous_holders_seen'] = hist['max_holders']
+    refusal_sequences(ctx, res, 90 if ctx.quick else 900)
     forked_holders(ctx, res)
     if not ctx.quick:
         process_soak(ctx, res)
@@ -719,12 +905,21 @@ def search(ctx, broken):
         cases += list(enum_cases(kind, value, 8))
     cases += [gen_case(ctx.rng) for _ in range(300)]
     run_cases(ctx, res, cases, hist, correspond=False)
+    refusal_sequences(ctx, res, 300)
     forked_holders(ctx, res)
     return res
 
 
 def replay(payload):
     case = payload.get('case', {})
+    if case.get('check') == 'refusals':
+        d = tempfile.mkdtemp(prefix='c15r-')
+        try:
+            problems, info = run_refusal_case(case, d)
+            print('refusal sequence:', problems, info)
+            return not problems
+        finally:
+            shutil.rmtree(d, ignore_errors=True)
     if case.get('check') != 'contenders':
         print('replay payload:', payload)
         return True
